@@ -1067,6 +1067,18 @@ Section UnorderedProofs.
   Theorem u_ret_refines ops o : snd (ustep (urun ops) o) = snd (usstep (usrun ops) o).
   Proof. rewrite <- u_refines_eq. apply u_step_ok. apply u_inv_reachable. Qed.
 
+  (* what is claimed about a history: the content, as a bag (the order of hashbrown's buckets carries no meaning) *)
+  Theorem u_refines ops : UInv (urun ops) /\ Permutation (ul (urun ops)) (usrun ops).
+  Proof. split; [apply u_inv_reachable | rewrite u_refines_eq; apply Permutation_refl]. Qed.
+  Theorem u_get_refines ops k :
+    u_get keq heq hash (urun ops) k = sget (usrun ops) k /\
+    u_contains_key keq heq hash (urun ops) k = Spec.contains keq (usrun ops) k /\
+    u_len (urun ops) = length (usrun ops).
+  Proof.
+    rewrite <- u_refines_eq. destruct (u_inv_reachable ops) as [Hok _]. unfold u_contains_key.
+    rewrite u_get_ok by assumption. rewrite contains_get. repeat split. unfold u_len, u_to_list. rewrite map_length. reflexivity.
+  Qed.
+
   (* ---- observables of ANY table satisfying the invariant; none depends on the order of the slots *)
   Theorem u_get_perm (t1 t2 : utable) k : UInv t1 -> UInv t2 -> Permutation (ul t1) (ul t2) ->
     u_get keq heq hash t1 k = u_get keq heq hash t2 k.
@@ -1180,6 +1192,21 @@ Section UnorderedSetProofs.
     assert (E : forall l : list (K * unit), l = map (fun k => (k, tt)) (map fst l)).
     { induction l as [|[k []] l IH]; simpl; [reflexivity|]. f_equal. exact IH. }
     intros Hp. rewrite (E l1), (E l2). apply Permutation_map. exact Hp.
+  Qed.
+
+  (* every UnorderedSet method keeps the invariant and acts on the key bag as the set specification says *)
+  Theorem uset_ops_ok (t : uset) k : USInv t ->
+    (USInv (fst (uset_insert keq heq hash t k)) /\
+     uset_to_list (fst (uset_insert keq heq hash t k)) = s_insert keq (uset_to_list t) k /\
+     snd (uset_insert keq heq hash t k) = negb (s_mem keq (uset_to_list t) k)) /\
+    (USInv (fst (uset_remove keq heq hash t k)) /\
+     uset_to_list (fst (uset_remove keq heq hash t k)) = s_remove keq (uset_to_list t) k /\
+     snd (uset_remove keq heq hash t k) = s_mem keq (uset_to_list t) k) /\
+    uset_contains keq heq hash t k = s_mem keq (uset_to_list t) k /\
+    USInv (uset_clear t).
+  Proof.
+    intros HI. split; [apply uset_insert_ok; exact HI|]. split; [apply uset_remove_ok; exact HI|].
+    split; [apply uset_contains_ok; exact HI | apply uinv_nil].
   Qed.
 
   Theorem uset_eq_is_perm (t1 t2 : uset) : USInv t1 -> USInv t2 ->
@@ -1508,12 +1535,12 @@ Section Vec2Proofs.
     - destruct (reserve_ok v n HI) as (H1 & Ea & Eb & _). split; auto. unfold v2_to_list. rewrite Ea, Eb. auto.
     - unfold v2_shrink_to_fit. destruct (v2_len v <? cap v); auto. unfold v2_clone.
       destruct (inv_with_capacity (v2_len v)) as [H0 E0]. destruct (fold_push_ok (vl v) _ H0) as [H1 H2].
-      split; auto. rewrite H2, E0. auto.
+      split; [exact H1|]. rewrite H2, E0. auto.
     - unfold v2_extend. destruct (reserve_ok v (length l) HI) as (H1 & Ea & Eb & _).
-      destruct (fold_push_ok l _ H1) as [H2 H3]. split; auto. rewrite H3. unfold v2_to_list at 1. rewrite Ea, Eb. auto.
+      destruct (fold_push_ok l _ H1) as [H2 H3]. split; [exact H2|]. rewrite H3. unfold v2_to_list at 1. rewrite Ea, Eb. auto.
     - destruct (inv_with_capacity n); auto.
     - unfold v2_clone. destruct (inv_with_capacity (v2_len v)) as [H0 E0]. destruct (fold_push_ok (vl v) _ H0) as [H1 H2].
-      split; auto. rewrite H2, E0. auto.
+      split; [exact H1|]. rewrite H2, E0. auto.
   Qed.
 
   Notation vrun := (@v2_run A B min_cap max_ins less).
